@@ -59,14 +59,15 @@ def check_kM(case, ctx):
     ctx.close('symmetry', M, M.T, 1e-13, bucket=name + '.symmetry')
     ctx.ok(np.array_equal(dense(p.kM), M), 'kM.attribute', 'Panel.kM differs from the returned matrix')
     # every block except the u-w / v-w coupling must match whatever the coupling sign
+    full = pkg.embed(rp.kM(pd, mu, h, d, coupling_sign=-1.), size, row0) if y else None
     try:
-        pkg.compare_matrix(ctx, name, M, ref_phys, TOL, num=pd.num, row0=row0, nd=own, bucket=name)
+        pkg.compare_matrix(ctx, name, M, ref_phys, TOL, num=pd.num, row0=row0, nd=own, bucket=name, full_ref=full)
     except Violation as v:
         if pd.num == 3 and d != 0.:
             flipped = _flip_coupling(ref_phys, pd, row0, own)
             try:
                 pkg.compare_matrix(ctx, name + '(coupling sign flipped)', M, flipped, TOL, num=3, row0=row0, nd=own,
-                                   bucket=name)
+                                   bucket=name, full_ref=full)
             except Violation:
                 raise v
             ctx.known(R1, v.bucket, v.msg)
